@@ -26,6 +26,7 @@ import (
 	"github.com/sourcenetwork/defradb/internal/core"
 	"github.com/sourcenetwork/defradb/internal/datastore"
 	"github.com/sourcenetwork/defradb/internal/encryption"
+	"github.com/sourcenetwork/defradb/internal/keys"
 )
 
 func putBlock(
@@ -143,6 +144,34 @@ func determineBlockEncryption(
 	}
 
 	// otherwise we use the same encryption as the previous block
+	encBlock, encLink, err := inheritBlockEncryption(ctx, txn, heads, false)
+	if err != nil || encBlock != nil {
+		return encBlock, encLink, err
+	}
+
+	// A field that is written for the first time has no previous block of its own. If the document
+	// is encrypted as a whole, the document's own heads carry the encryption to use.
+	if fieldName.HasValue() && len(heads) == 0 {
+		docHeadset := NewHeadSet(txn.Headstore(), keys.HeadstoreDocKey{DocID: docID, FieldID: core.COMPOSITE_NAMESPACE})
+		docHeads, _, err := docHeadset.List(ctx)
+		if err != nil {
+			return nil, cidlink.Link{}, NewErrGettingHeads(err)
+		}
+		return inheritBlockEncryption(ctx, txn, docHeads, true)
+	}
+
+	return nil, cidlink.Link{}, nil
+}
+
+// inheritBlockEncryption returns the encryption of the first of the given heads that is encrypted.
+//
+// If docLevelOnly is true only an encryption of the whole document is inherited.
+func inheritBlockEncryption(
+	ctx context.Context,
+	txn datastore.Txn,
+	heads []cid.Cid,
+	docLevelOnly bool,
+) (*Encryption, cidlink.Link, error) {
 	for _, headCid := range heads {
 		prevBlockBytes, err := txn.Blockstore().AsIPLDStorage().Get(ctx, headCid.KeyString())
 		if err != nil {
@@ -160,6 +189,9 @@ func determineBlockEncryption(
 			prevEncBlock, err := GetEncryptionBlockFromBytes(prevBlockEncBytes)
 			if err != nil {
 				return nil, cidlink.Link{}, err
+			}
+			if docLevelOnly && prevEncBlock.FieldName != nil {
+				continue
 			}
 			return &Encryption{
 				DocID:     prevEncBlock.DocID,
